@@ -7,7 +7,7 @@ C15.a K9  method of increments: `mi_summation` folded with one symbol per fragme
           energy of the complete fragment, at any truncation order it is mean field + the Moebius-inverted increments (2-4 centres)
 C15.b K9  ONIOM: `simulate` folded with symbolic solver energies: E = E_low[system] + sum(E_high[model] - E_low[model]); hence the two
           limiting identities of the property (identical levels, model = whole system) hold by algebra
-C15.c K9  link atoms: `Link.relink` folded on symbolic coordinates for a single capping atom: it sits at staying + factor * (leaving - staying)
+C15.c K9  link atoms: `Link.relink` folded on symbolic coordinates for a single capping atom and for a three-atom group under the identity rotation: it (the first group atom) sits at staying + factor * (leaving - staying)
 C15.d K8  DMET atom re-ordering (nested fragment lists): the molecule rebuilt for the re-ordered atoms receives every datum the original
           conversion `mol_to_pyscf` put on the molecule from arguments DMET passes (basis, charge, spin, effective core potentials, atoms):
           a necessary condition for invariance under relabelling
@@ -268,6 +268,22 @@ def _interp(args, kwargs):
     raise Undecidable("np.interp")
 
 
+class _IdRot:
+    """the rotation `align_vectors` returns when the two axes are already parallel: the identity (one admissible orthogonal map; the cap position must
+    not depend on which one is returned, so a placement that is wrong under the identity is wrong)"""
+    _sa_model = True
+
+    def apply(self, x):
+        return x
+
+
+class _RotFactory:
+    _sa_model = True
+
+    def align_vectors(self, a, b, *args, **kwargs):
+        return (_IdRot(), 0.0)
+
+
 def check_link_placement(idx: Index, rep: Report):
     rule = "K9.link-placement"
     f = idx.function(f"{HELP}::Link.relink")
@@ -301,6 +317,31 @@ def check_link_placement(idx: Index, rep: Report):
                        what="a single capping atom sits on the broken bond at the requested fraction of its length, measured from the atom that stays - beyond the "
                             "leaving atom when the factor exceeds one",
                        reason=f"folds to {got}")
+    # multi-atom cap group (placeholder X, then the group; its first atom is the one bonded to the atom that stays): folded with the identity as the
+    # aligning rotation - the first atom of the group lands on the bond point and the others keep their offsets from it
+    group = [("X", (0., 0., -1.)), ("C", (0., 0., 0.)), ("H", (1., 0., 0.5)), ("H", (0., 1., 0.5))]
+    m = 0
+    for fac in (sp.Rational(709, 1000), sp.Rational(3, 2)):
+        link = Rec("Link", {"staying": 0, "leaving": 1, "factor": float(fac), "species": list(group)})
+        fo = make_folder(idx, HELP, ctors={"np.array": vec, "np.interp": _interp})
+        fo.env["warnings"] = Opaque("warnings")
+        fo.env["R"] = _RotFactory()
+        try:
+            got = fo.run_function(f.node, {"self": link, "geometry": list(geometry)})
+        except (Undecidable, Raised) as e:
+            rep.info(rule, f, f.node, f"multi-atom cap group not foldable ({e}): placement of groups not decided") if hasattr(rep, "info") else None
+            break
+        m += 1
+        want0 = [xs[0][k] + fac * (xs[1][k] - xs[0][k]) for k in range(3)]
+        ok = isinstance(got, list) and [g[0] for g in got] == ["C", "H", "H"]
+        if ok:
+            for j, (_, off) in enumerate(group[1:]):
+                for k in range(3):
+                    d = sp.expand(sp.sympify(got[j][1][k]) - want0[k] - sp.nsimplify(off[k]))
+                    ok = ok and all(abs(complex(c)) < 1e-9 for c in sp.Poly(d, *[v for r in xs for v in r]).coeffs())
+        rep.decide(ok, rule, f, f.node, text=f"cap group C,H,H for the bond 0-1, factor {fac}, aligning rotation = identity: first group atom at the bond point, the others at their offsets from it",
+                   what="the first atom of a multi-atom cap group sits on the broken bond at the requested fraction and the group is moved rigidly with it",
+                   reason=f"folds to {got}")
     rep.floor("link placements folded", n, 15)
 
 
